@@ -75,8 +75,8 @@ Definition mk_server (l : list (name * (N * N))) : server N :=
   fold_left (fun acc '(n, vb) => upd n vb acc) l [].
 
 (* which requests a poll must have issued by its end: exactly one per live name of the snapshot;
-   after a failed request the rest may be skipped (the poll fails either way), but never
-   duplicated or invented *)
+   after a failed request, or once the leader's context has ended, the rest may be skipped (the
+   poll fails either way), but never duplicated or invented *)
 Definition req_failed (fl : flight N) : bool :=
   existsb (fun '(n, i) => match req_version (fsnap fl) n with
                           | Some v => match answer i n v with RErr => true | _ => false end
@@ -84,7 +84,7 @@ Definition req_failed (fl : flight N) : bool :=
 Fixpoint nodupb (l : list name) : bool :=
   match l with [] => true | x :: r => negb (mem x r) && nodupb r end.
 Definition well_requested (fl : flight N) : bool :=
-  if req_failed fl
+  if req_failed fl || lead_dead fl
   then (let want := map fst (requests (fsnap fl)) in let got := map fst (finst fl) in
         nodupb got && forallb (fun n => mem n want) got)
   else complete fl.
